@@ -548,7 +548,11 @@ def gen_cycle_case(rnd, wrnd, index):
     n = cfg['n']
     cfg['site'] = f'S!B{(index % SITES) % n + 1}'
     cfg['iter'] = [wrnd.choice((50, 200)), 10 ** wrnd.uniform(-6, -2)]
-    targets = [f'S!B{i + 1}' for i in range(n)] + (['S!C1'] if cfg.get('extra') else [])
+    # a loop of its own that has nothing to do with the failing cell and settles slowly: what
+    # it returns depends on how many passes it is given
+    cfg['solo'] = [round(wrnd.uniform(0.5, 0.97), 3), round(wrnd.uniform(-5, 5), 2)]
+    targets = [f'S!B{i + 1}' for i in range(n)] + (['S!C1'] if cfg.get('extra') else []) + \
+        ['S!E1', 'S!E1']
     ops = []
     for _ in range(rnd.choice((0, 1, 2))):
         ops.append({'op': 'eval', 'a': rnd.choice(targets), 'form': 'cell'})
@@ -578,6 +582,10 @@ def cycle_spec(cfg):
             # PROBE("Bi", body) -> PROBE("Bi", BOOM("F", body))
             head, body = c['f'].split(',', 1)
             c['f'] = f'{head},BOOM("F",{body[:-1]}))'
+    if cfg.get('solo'):
+        q2, c2 = cfg['solo']
+        spec['cells'].append({'a': 'S!E1', 'f': f'=PROBE("E1",{q2!r}*E1+{c2!r})'.replace('+-', '-'),
+                              'p': ['S!E1'], 'd': []})
     return spec
 
 
@@ -587,7 +595,8 @@ def legalise_cycle(case):
     if int(cfg['site'][3:]) > n:
         cfg['site'] = 'S!B1'
     case['spec'] = cycle_spec(cfg)
-    ok = {f'S!B{i + 1}' for i in range(n)} | ({'S!C1'} if cfg.get('extra') else set())
+    ok = {f'S!B{i + 1}' for i in range(n)} | ({'S!C1'} if cfg.get('extra') else set()) | (
+        {'S!E1'} if cfg.get('solo') else set())
     case['ops'] = [o for o in case.get('ops', [])
                    if o['op'] in ('arm', 'disarm') or (o['op'] == 'eval' and o['a'] in ok) or
                    (o['op'] == 'set' and o['a'] in {f'S!A{i + 1}' for i in range(n)})]
@@ -624,6 +633,7 @@ def run_cycle_case(case):
         driver.build_nodata(spec)
         iterations, tol = cfg['iter']
         fired_any = False
+        last = {}
         for i, op in enumerate(ops):
             if state['violation']:
                 break
@@ -654,6 +664,9 @@ def run_cycle_case(case):
             for tag, x in plugin.STATE['probe_log'][start:]:
                 calls.setdefault(tag, []).append(x)
             passes = max((len(v) for v in calls.values()), default=0)
+            prev_last = dict(last)
+            for t, xs in calls.items():
+                last[t] = xs[-1]       # (the passes of an evaluation that failed moved the cells too)
             count('evals')
             events.append((i, 'eval', op['a'], out.get('v'), out.get('exc'), fired, passes))
             sig_items.append(('e', 'exc' if 'exc' in out else 'v', fired, passes))
@@ -673,6 +686,36 @@ def run_cycle_case(case):
             if got[0] != 'num':
                 violate('wrong-value-after-repair' if fired_any else 'wrong-value', i, op,
                         'a number', got)
+                continue
+            # an evaluation that worked is bounded and, when it stops before its limit, stops
+            # because nothing moved by more than the tolerance - whatever failed before it
+            over = {t: len(v) for t, v in calls.items() if len(v) > iterations}
+            if over:
+                violate('too-many-passes', i, op, f'<= {iterations} calls per tag', over)
+                continue
+            if 0 < passes < iterations and not fired:
+                for t, xs in sorted(calls.items()):
+                    prev = xs[-2] if len(xs) >= 2 else prev_last.get(t)
+                    if prev is not None and abs(xs[-1] - prev) > tol * (1 + 1e-5):
+                        violate('stopped-while-still-moving-after-failure' if fired_any
+                                else 'stopped-while-still-moving', i, op,
+                                f'|delta {t}| <= {tol} (or {iterations} passes)',
+                                {'delta': abs(xs[-1] - prev), 'passes': passes})
+                        break
+                count('probe:early-stop-checked-against-the-tolerance')
+            if state['violation']:
+                continue
+            if op['a'] == 'S!E1':
+                if 0 < passes < iterations:
+                    q2, c2 = cfg['solo']
+                    err = abs(got[1] - c2 / (1 - q2))
+                    bound = q2 / (1 - q2) * tol * (1 + 1e-5) + 1e-9
+                    count('probe:unrelated-loop-checked')
+                    if err > bound:
+                        violate('unrelated-loop-outside-fixed-point-bound', i, op,
+                                f'|x - x*| <= {bound:.3g}', err)
+                    elif fired_any:
+                        state['nontrivial'] = True
                 continue
             if passes < iterations and passes > 0 and len(calls) == n:
                 bound = q / (1 - q) * tol * (1 + 1e-5) + 1e-9
